@@ -1,9 +1,12 @@
 """C10 - what is evaluated, what is reported and what is exported are the same choice.
 
-design       : SelectionMC (state machine of one decision point: options, mode, coefficients, theta class) is
-               model-checked to closure for MPS (pinned and repaired `update_softmax_options`) and SuperNet
-               (as implemented with the named deviations, reference semantics, and - expected to fail - as
-               implemented without the deviations).
+design       : SelectionMC (state machine of one decision point: options, mode, coefficients, theta class; forward
+               passes with grad enabled and under torch.no_grad(); writes to alpha by in-place copy_, assignment to
+               .data, optimizer step and load_state_dict of a checkpoint taken in another state) is model-checked to
+               closure for MPS (pinned and repaired `update_softmax_options`) and SuperNet (as implemented with the
+               named deviation, reference semantics) and - expected to fail - for defective variants: the combiner
+               without the deviation admitted, summary() that re-samples, and an inference-time short cut that keeps a
+               cached theta_alpha across writes to alpha (flag-based, alpha._version-based, for MPS and SuperNet).
 spec -> code : TLC dumps the reachable graphs; a covering walk executes EVERY edge on real MPSPerLayerQtz,
                MPSPerChannelQtz, SuperNetCombiner objects and on small whole MPS / SuperNet models
                (summary() and export() included).
@@ -94,17 +97,59 @@ def _obs_comb(c) -> Dict[str, Any]:
             "al": _cols(c.alpha, 1e4), "th": _cols(th, 1e6), "nn": bool((th.detach() >= 0).all())}
 
 
-def _set_alpha(obj, mat: List[List[int]]) -> None:
-    """mat: one integer vector (alpha x 10^4) per channel."""
+def _target(obj, mat: List[List[int]]):
+    """mat: one integer vector (alpha x 10^4) per channel -> tensor shaped like obj.alpha."""
     torch = P["torch"]
     t = torch.tensor(mat, dtype=torch.float64).t() / 1e4       # (N, C)
-    with torch.no_grad():
-        if obj.alpha.dim() == 1:
-            if t.shape[1] != 1:
-                raise MachineryError("alpha matrix given to a per-layer decision point")
-            obj.alpha.copy_(t[:, 0].to(obj.alpha.dtype))
-        else:
-            obj.alpha.copy_(t.to(obj.alpha.dtype))
+    if obj.alpha.dim() == 1:
+        if t.shape[1] != 1:
+            raise MachineryError("alpha matrix given to a per-layer decision point")
+        t = t[:, 0]
+    if tuple(t.shape) != tuple(obj.alpha.shape):
+        raise MachineryError(f"coefficients of shape {tuple(t.shape)} for a decision point of shape {tuple(obj.alpha.shape)}")
+    return t.to(obj.alpha.dtype)
+
+
+def _write_alpha(objs: List[Any], mats: List[List[List[int]]], wk: str = "copy") -> None:
+    """Write new coefficients into the decision points, the way `wk` says:
+    copy  : with torch.no_grad(): alpha.copy_(new)            (what load_state_dict does per tensor)
+    data  : alpha.data = new                                  (alpha._version does not change)
+    optim : one SGD step (lr 1) with the gradient alpha - new (an optimizer step)"""
+    torch = P["torch"]
+    tg = [_target(o, m) for o, m in zip(objs, mats)]
+    if wk == "copy":
+        with torch.no_grad():
+            for o, t in zip(objs, tg):
+                o.alpha.copy_(t)
+    elif wk == "data":
+        for o, t in zip(objs, tg):
+            o.alpha.data = t.clone()
+    elif wk == "optim":
+        params = [o.alpha for o in objs]
+        for p_ in params:
+            if not p_.requires_grad:
+                raise MachineryError("optimizer step on coefficients that do not require grad")
+        opt = torch.optim.SGD(params, lr=1.0)
+        for p_, t in zip(params, tg):
+            p_.grad = (p_.detach() - t)
+        opt.step()
+        for p_ in params:
+            p_.grad = None
+    else:
+        raise MachineryError(f"unknown way of writing alpha: {wk}")
+
+
+def _set_alpha(obj, mat: List[List[int]]) -> None:
+    _write_alpha([obj], [mat], "copy")
+
+
+def _grad_ctx(g: bool):
+    torch = P["torch"]
+    return torch.enable_grad() if g else torch.no_grad()
+
+
+CKPT_OPTS = {  # how the donor produces the theta_alpha stored in the checkpoint: (training, hard, gumbel)
+    "onehot": (False, False, False), "soft": (True, False, False), "probF": (True, False, True), "probT": (True, True, True)}
 
 
 # ----------------------------------------------------------------------------------------------
@@ -118,23 +163,41 @@ class BareMPS:
         self.gen = gen
         n, c = len(cfg["prec"]), cfg["C"]
         if cfg["qtz"] == "pact":
-            quant, kw = P["PACTAct"], {}
+            self.quant, self.kw = P["PACTAct"], {}
             self.x = lambda: torch.rand(2, 3, 2, 2, generator=gen) * 4
         else:
-            quant, kw = P["MinMaxWeight"], {"cout": c}
+            self.quant, self.kw = P["MinMaxWeight"], {"cout": c}
             self.x = lambda: torch.randn(c, 3, generator=gen)
-        cls = P["MPSPerChannelQtz"] if cfg["form"] == "channel" else P["MPSPerLayerQtz"]
-        self.q = cls(tuple(cfg["prec"]), quant, dict(kw), softmax_temperature=init["t4"] / 1e4,
-                     hard_softmax=init["hd"], gumbel_softmax=init["gum"], disable_sampling=init["dis"])
+        self.cls = P["MPSPerChannelQtz"] if cfg["form"] == "channel" else P["MPSPerLayerQtz"]
+        self.q = self.cls(tuple(cfg["prec"]), self.quant, dict(self.kw), softmax_temperature=init["t4"] / 1e4,
+                          hard_softmax=init["hd"], gumbel_softmax=init["gum"], disable_sampling=init["dis"])
         self.dp = [{"k": "mps", "ctor": "bare"}]
         self.shape = [(n, c if cfg["form"] == "channel" else 1)]
         self.init_v = {"hd": init["hd"], "gum": init["gum"], "dis": init["dis"], "t4": init["t4"], "smp": True}
+        self.donor = None
 
     def observe(self):
         return [_obs_qtz(self.q)]
 
+    def _load(self, v):
+        """load_state_dict of a checkpoint taken from ANOTHER object of the same type in another state."""
+        import copy
+        if self.donor is None:
+            self.donor = self.cls(tuple(self.cfg["prec"]), self.quant, dict(self.kw))
+        dn = self.donor
+        tr, hd, gum = CKPT_OPTS[v["ck"]]
+        dn.update_softmax_options(temperature=v["t4"] / 1e4, hard=hd, gumbel=gum, disable_sampling=False)
+        _set_alpha(dn, v["al"][0])
+        dn.train(tr)
+        dn(self.x())
+        sd = copy.deepcopy(dn.state_dict())
+        self.q.load_state_dict(sd)
+        o = _obs_qtz(dn)
+        return {"al": [o["al"]], "th": [o["th"]], "t4": [o["t4"]]}
+
     def step(self, a, v):
         q = self.q
+        vlog = None
         if a == "temp":
             q.update_softmax_options(temperature=v / 1e4)
         elif a == "hard":
@@ -148,34 +211,52 @@ class BareMPS:
         elif a == "eval":
             q.eval()
         elif a == "fwd":
-            q(self.x())
+            with _grad_ctx(bool(v)):
+                q(self.x())
         elif a == "alpha":
-            _set_alpha(q, v[0])
+            _write_alpha([q], v["al"], v["wk"])
+        elif a == "load":
+            vlog = self._load(v)
         else:
             raise MachineryError(f"BareMPS: action {a} not applicable")
-        return [], [[]]
+        return [], [[]], vlog
 
 
 class BareSN:
-    """A single SuperNetCombiner (options are set the way SuperNet.update_softmax_options sets them)."""
+    """A single SuperNetCombiner (options are set the way SuperNet.update_softmax_options sets them; the
+    coefficients are made trainable the way SuperNet.__init__ does)."""
     def __init__(self, cfg, init, gen):
         self.cfg = cfg
         self.gen = gen
         self.n = cfg["N"]
         self.c = P["SuperNetCombiner"](self.n, init["gum"], init["hd"])
+        self.c.train_selection = True
         self.c.softmax_temperature = init["t4"] / 1e4
         _set_alpha(self.c, init["alpha0"][0])
         self.dp = [{"k": "sn", "ctor": "bare"}]
         self.shape = [(self.n, 1)]
         self.init_v = {"hd": init["hd"], "gum": init["gum"], "dis": False, "t4": init["t4"], "smp": False}
+        self.donor = None
 
     def observe(self):
         return [_obs_comb(self.c)]
 
+    def _load(self, v):
+        import copy
+        if self.donor is None:
+            self.donor = P["SuperNetCombiner"](self.n, False, False)
+        dn = self.donor
+        dn.softmax_temperature = v["t4"] / 1e4
+        _set_alpha(dn, v["al"][0])
+        sd = copy.deepcopy(dn.state_dict())        # a combiner registers alpha only
+        self.c.load_state_dict(sd)
+        o = _obs_comb(dn)
+        return {"al": [o["al"]], "th": [[]], "t4": [o["t4"]]}
+
     def step(self, a, v):
         torch = P["torch"]
         c = self.c
-        rep, rv = [], [[]]
+        rep, rv, vlog = [], [[]], None
         if a == "temp":
             c.softmax_temperature = v / 1e4
         elif a == "hard":
@@ -185,9 +266,12 @@ class BareSN:
         elif a == "eval":
             c.eval()
         elif a == "fwd":
-            c([torch.rand(2, 3, generator=self.gen) for _ in range(self.n)])
+            with _grad_ctx(bool(v)):
+                c([torch.rand(2, 3, generator=self.gen) for _ in range(self.n)])
         elif a == "alpha":
-            _set_alpha(c, v[0])
+            _write_alpha([c], v["al"], v["wk"])
+        elif a == "load":
+            vlog = self._load(v)
         elif a == "summary":
             s = c.summary()["supernet_branches"]
             rv = [[int(round(float(s[f"branch_{i}"]["alpha"]) * 1e6)) if f"branch_{i}" in s else -1
@@ -196,7 +280,7 @@ class BareSN:
             rep = [{"dp": 1, "slot": "best_layer_index", "idx": [int(c.best_layer_index()) + 1]}]
         else:
             raise MachineryError(f"BareSN: action {a} not applicable")
-        return rep, rv
+        return rep, rv, vlog
 
 
 def _mps_net():
@@ -243,6 +327,24 @@ class ModelMPS:
         self.init_v = {"hd": init["hd"], "gum": init["gum"], "dis": init["dis"], "t4": init["t4"], "smp": False}
         self.skipped_slots = 0
         self.export_left_eval = 0
+        self.donor = None
+
+    def _load(self, v):
+        """load_state_dict of a checkpoint of ANOTHER instance of the same model, taken in another state."""
+        import copy
+        torch = P["torch"]
+        if self.donor is None:
+            self.donor = ModelMPS(self.cfg, {"hd": False, "gum": False, "dis": False, "t4": 10000}, self.gen)
+        dn = self.donor
+        tr, hd, gum = CKPT_OPTS[v["ck"]]
+        dn.m.update_softmax_options(temperature=v["t4"] / 1e4, hard=hd, gumbel=gum, disable_sampling=False)
+        _write_alpha(dn.q, v["al"], "copy")
+        dn.m.train(tr)
+        dn.m(torch.rand(2, 3, 4, 4, generator=self.gen))
+        sd = copy.deepcopy(dn.m.state_dict())
+        self.m.load_state_dict(sd)
+        obs = dn.observe()
+        return {"al": [o["al"] for o in obs], "th": [o["th"] for o in obs], "t4": [o["t4"] for o in obs]}
 
     def _dp_of(self, q) -> int:
         for i, x in enumerate(self.q):
@@ -322,6 +424,7 @@ class ModelMPS:
         torch = P["torch"]
         m = self.m
         rep: List[Any] = []
+        vlog = None
         if a == "temp":
             m.update_softmax_options(temperature=v / 1e4)
         elif a == "hard":
@@ -335,17 +438,19 @@ class ModelMPS:
         elif a == "eval":
             m.eval()
         elif a == "fwd":
-            m(torch.rand(2, 3, 4, 4, generator=self.gen))
+            with _grad_ctx(bool(v)):
+                m(torch.rand(2, 3, 4, 4, generator=self.gen))
         elif a == "alpha":
-            for q, mat in zip(self.q, v):
-                _set_alpha(q, mat)
+            _write_alpha(self.q, v["al"], v["wk"])
+        elif a == "load":
+            vlog = self._load(v)
         elif a == "summary":
             rep = self._summary()
         elif a == "export":
             rep = self._export()
         else:
             raise MachineryError(f"ModelMPS: action {a} not applicable")
-        return rep, [[] for _ in self.q]
+        return rep, [[] for _ in self.q], vlog
 
 
 def _sn_net(blocks: List[int], gum: bool, hd: bool):
@@ -397,15 +502,31 @@ class ModelSN:
         self.shape = [(c.n_branches, 1) for c in self.c]
         self.init_v = {"hd": init["hd"], "gum": init["gum"], "dis": False, "t4": init["t4"], "smp": False}
         self.export_left_eval = 0
+        self.donor = None
 
     def observe(self):
         return [_obs_comb(c) for c in self.c]
+
+    def _load(self, v):
+        """load_state_dict of a checkpoint of ANOTHER instance of the same SuperNet (alpha is the only
+        architectural tensor a combiner registers)."""
+        import copy
+        if self.donor is None:
+            self.donor = ModelSN(self.cfg, {"hd": False, "gum": False, "dis": False, "t4": 10000, "alpha0": v["al"]}, self.gen)
+        dn = self.donor
+        dn.m.update_softmax_options(temperature=v["t4"] / 1e4)
+        _write_alpha(dn.c, v["al"], "copy")
+        sd = copy.deepcopy(dn.m.state_dict())
+        self.m.load_state_dict(sd)
+        obs = dn.observe()
+        return {"al": [o["al"] for o in obs], "th": [[] for _ in obs], "t4": [o["t4"] for o in obs]}
 
     def step(self, a, v):
         torch = P["torch"]
         m = self.m
         rep: List[Any] = []
         rv: List[Any] = [[] for _ in self.c]
+        vlog = None
         if a == "temp":
             m.update_softmax_options(temperature=v / 1e4)
         elif a == "hard":
@@ -415,10 +536,12 @@ class ModelSN:
         elif a == "eval":
             m.eval()
         elif a == "fwd":
-            m(torch.rand(2, 3, 4, 4, generator=self.gen))
+            with _grad_ctx(bool(v)):
+                m(torch.rand(2, 3, 4, 4, generator=self.gen))
         elif a == "alpha":
-            for c, mat in zip(self.c, v):
-                _set_alpha(c, mat)
+            _write_alpha(self.c, v["al"], v["wk"])
+        elif a == "load":
+            vlog = self._load(v)
         elif a == "summary":
             s = m.summary()
             rv = []
@@ -441,7 +564,7 @@ class ModelSN:
                 rep.append({"dp": d + 1, "slot": name[: -len(".sn_combiner")], "idx": alive})
         else:
             raise MachineryError(f"ModelSN: action {a} not applicable")
-        return rep, rv
+        return rep, rv, vlog
 
 
 DRIVERS = {"bare_mps": BareMPS, "bare_sn": BareSN, "model_mps": ModelMPS, "model_sn": ModelSN}
@@ -472,12 +595,22 @@ def execute(sc: Dict[str, Any], open_ids: List[str]) -> Tuple[Dict[str, Any], An
     _check_domain(obs)
     ev.append({"a": "init", "v": drv.init_v, "o": obs, "rep": [], "rv": [[] for _ in drv.dp]})
     for a, v in sc["steps"]:
-        if a == "alpha" and [(len(m[0]), len(m)) for m in v] != [tuple(x) for x in drv.shape]:
-            raise MachineryError(f"scenario coefficients {[(len(m[0]), len(m)) for m in v]} do not fit the decision points {drv.shape}")
-        rep, rv = drv.step(a, v)
+        if a in ("alpha", "load") and [(len(m[0]), len(m)) for m in v["al"]] != [tuple(x) for x in drv.shape]:
+            raise MachineryError(f"scenario coefficients {[(len(m[0]), len(m)) for m in v['al']]} do not fit the decision points {drv.shape}")
+        rep, rv, vlog = drv.step(a, v)
         obs = drv.observe()
         _check_domain(obs)
-        ev.append({"a": a, "v": v if a in ("temp", "hard", "gumbel", "disable") else 0, "o": obs, "rep": rep, "rv": rv})
+        if a in ("temp", "hard", "gumbel", "disable"):
+            lv = v
+        elif a == "fwd":
+            lv = bool(v)                                   # grad mode
+        elif a == "alpha":
+            lv = {"wk": v["wk"], "al": v["al"]}            # how, and what, was written
+        elif a == "load":
+            lv = vlog                                      # the checkpoint: alpha, theta_alpha, temperature per decision point
+        else:
+            lv = 0
+        ev.append({"a": a, "v": lv, "o": obs, "rep": rep, "rv": rv})
     return {"open": list(open_ids), "dp": drv.dp, "ev": ev}, drv
 
 
@@ -531,17 +664,18 @@ def _alpha_step(rng: random.Random, rk: List[List[int]], shape: List[Tuple[int, 
 LABEL = re.compile(r"^(\w+)(?:\((.*)\))?$", re.S)
 
 
-def _parse_label(lab: str) -> Tuple[str, Any]:
+def _parse_label(lab: str) -> Tuple[str, List[Any]]:
     m = LABEL.match(lab.strip())
     if not m:
         raise MachineryError(f"cannot parse action label {lab!r}")
     name, arg = m.group(1), m.group(2)
-    val = tlc.parse_value(arg) if arg is not None else None
+    args = list(tlc.parse_value("<<" + arg + ">>")) if arg is not None else []
     table = {"UpdTemp": "temp", "UpdHard": "hard", "UpdGumbel": "gumbel", "UpdDisable": "disable", "ModeTrain": "train",
-             "ModeEval": "eval", "Forward": "fwd", "SetAlpha": "alpha", "Summarize": "summary", "Export": "export"}
+             "ModeEval": "eval", "Forward": "fwd", "SetAlpha": "alpha", "Load": "load", "Summarize": "summary",
+             "Export": "export"}
     if name not in table:
         raise MachineryError(f"unknown action {name}")
-    return table[name], val
+    return table[name], args
 
 
 # ----------------------------------------------------------------------------------------------
@@ -676,15 +810,18 @@ def scenarios_from_graph(nodes, edges, init, driver: str, cfg_of, applicable, se
         if driver in ("bare_sn", "model_sn"):
             ini["alpha0"] = _alpha_step(rng, rk0, shape)
         elif init_alpha_any and any(r != sorted(r) for r in rk0):
-            steps.append(["alpha", _alpha_step(rng, rk0, shape)])       # (identity ranking = what the constructor left)
+            steps.append(["alpha", {"wk": "copy", "al": _alpha_step(rng, rk0, shape)}])   # (identity = what the constructor left)
         for ei in seg:
-            a, val = _parse_label(edges[ei][2])
+            a, args = _parse_label(edges[ei][2])
             if a == "temp":
-                steps.append([a, _temp(rng, val)])
-            elif a in ("hard", "gumbel", "disable"):
-                steps.append([a, bool(val)])
+                steps.append([a, _temp(rng, args[0])])
+            elif a in ("hard", "gumbel", "disable", "fwd"):
+                steps.append([a, bool(args[0])])
             elif a == "alpha":
-                steps.append([a, _alpha_step(rng, [list(r) for r in val], shape)])
+                steps.append([a, {"wk": args[1], "al": _alpha_step(rng, [list(r) for r in args[0]], shape)}])
+            elif a == "load":
+                steps.append([a, {"ck": args[1], "al": _alpha_step(rng, [list(r) for r in args[0]], shape),
+                                  "t4": _temp(rng, args[2])}])
             else:
                 steps.append([a, 0])
         out.append({"kind": "graph", "driver": driver, "cfg": {k: v for k, v in cfg.items() if not k.startswith("_")},
@@ -730,14 +867,14 @@ def random_scenario(rng: random.Random, driver: str) -> Dict[str, Any]:
         cfg = {"form": form, "prec": prec, "C": c if form == "channel" else 3,
                "qtz": "minmax" if form == "channel" else rng.choice(["pact", "minmax"])}
         shape = [(n, c if form == "channel" else 1)]
-        acts = ["temp", "hard", "gumbel", "disable", "train", "eval", "fwd", "fwd", "fwd", "alpha", "alpha"]
+        acts = ["temp", "hard", "gumbel", "disable", "train", "eval", "eval", "fwd", "fwd", "fwd", "alpha", "alpha", "load"]
     elif driver == "bare_sn":
         n = rng.randint(1, 8)
         cfg = {"N": n}
         shape = [(n, 1)]
         ini["dis"] = False
         ini["alpha0"] = _rand_alpha(rng, shape)
-        acts = ["temp", "hard", "train", "eval", "fwd", "fwd", "fwd", "alpha", "alpha", "summary", "export"]
+        acts = ["temp", "hard", "train", "eval", "eval", "fwd", "fwd", "fwd", "alpha", "alpha", "load", "summary", "export"]
     elif driver == "model_mps":
         w = rng.choice(["layer", "channel"])
         a_prec = rng.choice([[2, 4, 8], [4, 8], [8], [2, 4, 6, 8], [8, 4, 2]])
@@ -748,14 +885,15 @@ def random_scenario(rng: random.Random, driver: str) -> Dict[str, Any]:
         # decision points in layer order: input.out, c1.out, c1.w, c2.out, c2.w, fc.out (dummy), fc.w
         shape = [(na, 1), (na, 1), (nw, chans["c1"] if w == "channel" else 1), (na, 1),
                  (nw, chans["c2"] if w == "channel" else 1), (1, 1), (nw, chans["fc"] if w == "channel" else 1)]
-        acts = ["temp", "hard", "gumbel", "disable", "train", "eval", "fwd", "fwd", "alpha", "alpha", "summary", "export"]
+        acts = ["temp", "hard", "gumbel", "disable", "train", "eval", "eval", "fwd", "fwd", "alpha", "alpha", "load",
+                "summary", "export"]
     elif driver == "model_sn":
         blocks = [rng.randint(1, 8) for _ in range(rng.randint(1, 3))]
         cfg = {"blocks": blocks, "wseed": rng.randrange(1000)}
         shape = [(n, 1) for n in blocks]
         ini["dis"] = False
         ini["alpha0"] = _rand_alpha(rng, shape)
-        acts = ["temp", "hard", "train", "eval", "fwd", "fwd", "alpha", "alpha", "summary", "export"]
+        acts = ["temp", "hard", "train", "eval", "eval", "fwd", "fwd", "alpha", "alpha", "load", "summary", "export"]
     else:
         raise MachineryError(driver)
     steps: List[Any] = []
@@ -765,8 +903,13 @@ def random_scenario(rng: random.Random, driver: str) -> Dict[str, Any]:
             steps.append([a, _rand_temp(rng)])
         elif a in ("hard", "gumbel", "disable"):
             steps.append([a, rng.random() < 0.5])
+        elif a == "fwd":
+            steps.append([a, rng.random() < 0.5])                      # grad enabled / torch.no_grad()
         elif a == "alpha":
-            steps.append([a, _rand_alpha(rng, shape)])
+            steps.append([a, {"wk": rng.choice(["copy", "data", "optim"]), "al": _rand_alpha(rng, shape)}])
+        elif a == "load":
+            steps.append([a, {"ck": rng.choice(["onehot", "soft", "probF", "probT"]), "al": _rand_alpha(rng, shape),
+                              "t4": _rand_temp(rng)}])
         else:
             steps.append([a, 0])
     return {"kind": "random", "driver": driver, "cfg": cfg, "init": ini, "steps": steps, "tseed": rng.randrange(1 << 30),
@@ -782,8 +925,45 @@ def _probe_optimpl() -> str:
     return "fixed" if _sampler(q) == "gs" else "pinned"
 
 
-def _graph(R: Run, cfg: str, require: List[str], workers: int = 8):
-    dot = tempfile.mktemp(prefix="c10-", suffix=".dot", dir=tlc.scratch())
+class _Prefetch:
+    """The design configurations are independent TLC processes: start them concurrently, then hand each result to
+    core.Run.design when the check asks for that configuration (expectations and bookkeeping stay in core)."""
+    def __init__(self, jobs: List[Tuple[str, Dict[str, Any]]], parallel: int = 6):
+        self.jobs = jobs
+        self.parallel = parallel
+        self.fut: Dict[str, Any] = {}
+        self.dots: Dict[str, str] = {}
+
+    def __enter__(self):
+        from concurrent.futures import ThreadPoolExecutor
+        tlc.scratch()
+        self.orig = tlc.run_tlc
+        self.ex = ThreadPoolExecutor(max_workers=self.parallel)
+        for cfg, kw in self.jobs:
+            kw = dict(kw)
+            if kw.pop("graph", False):
+                self.dots[cfg] = tempfile.mktemp(prefix="c10-", suffix=".dot", dir=tlc.scratch())
+                kw.update(dump_dot=self.dots[cfg], coverage=True)
+            self.fut[cfg] = self.ex.submit(self.orig, "SelectionMC", cfg, **kw)
+
+        def served(module, cfg, **kw):
+            f = self.fut.pop(cfg, None) if module == "SelectionMC" else None
+            return f.result() if f is not None else self.orig(module, cfg, **kw)
+        tlc.run_tlc = served
+        return self
+
+    def __exit__(self, *exc):
+        tlc.run_tlc = self.orig
+        self.ex.shutdown(wait=True, cancel_futures=True)
+        return False
+
+
+PRE: Optional[_Prefetch] = None
+
+
+def _graph(R: Run, cfg: str, require: List[str], workers: int = 2):
+    dot = PRE.dots[cfg] if PRE is not None and cfg in PRE.dots else \
+        tempfile.mktemp(prefix="c10-", suffix=".dot", dir=tlc.scratch())
     res = R.design("SelectionMC", cfg, dump_dot=dot, coverage=True, workers=workers)
     # vacuity guard: TLC reports <distinct new states>:<states generated> per action; an action that is never
     # enabled generates nothing (new-distinct may legitimately be 0 when other actions found the states first)
@@ -809,8 +989,8 @@ def run(tier: str, seed: int, replay: Optional[str] = None) -> int:
     R = Run("C10", tier, seed, level="model_checking")
     _setup()
     open_ids = sorted(R.known_open)
-    R.rule = ("scenario = (object or model, constructor options, concrete call sequence with temperatures and coefficient "
-              "matrices); graph scenarios are the segments of a covering walk over the reachable graphs of SelectionMC "
+    R.rule = ("scenario = (object or model, constructor options, concrete call sequence with temperatures, grad modes, "
+              "ways of writing alpha, checkpoints and coefficient matrices); graph scenarios are the segments of a covering walk over the reachable graphs of SelectionMC "
               "(every edge executed on the real objects), random scenarios are seeded call sequences on objects with "
               "1..8 candidates and up to 16 channels and on whole models. Non-trivial = at some event the arg-max of a "
               "coefficient vector differs from the one the object was constructed with.")
@@ -821,6 +1001,10 @@ def run(tier: str, seed: int, replay: Optional[str] = None) -> int:
         "theta_alpha is claimed only after a sampling step (forward pass, quantiser constructor); a quantiser constructed "
         "with disable_sampling=True holds all-ones until a checkpoint is loaded - outside the claim ('keep the saved coefficients')",
         "export() is followed by restoring the training flag it may clear (that side effect is property C18)",
+        "writes to alpha: copy_ under no_grad, assignment to alpha.data, one SGD step (lr 1) with the gradient alpha - new; "
+        "load_state_dict loads the (deep-copied) state_dict of a second object / model of the same type and architecture that "
+        "was driven to the state the edge names (coefficients, theta_alpha class via mode / options, temperature); "
+        "a bare SuperNetCombiner gets train_selection=True as SuperNet.__init__ does",
         "per-channel export is identified by matching weight rows of the exported parts with the searched layer",
     ]
     R.exhaustive = False
@@ -844,28 +1028,47 @@ def run(tier: str, seed: int, replay: Optional[str] = None) -> int:
     # ------------------------------------------------------------------ 1. design level
     sfx = "thorough" if thorough else "quick"
     other = "fixed" if optimpl == "pinned" else "pinned"
-    all_mps = ["UpdTemp", "UpdHard", "UpdGumbel", "UpdDisable", "ModeTrain", "ModeEval", "Forward", "SetAlpha", "Summarize", "Export"]
-    all_sn = ["UpdTemp", "UpdHard", "ModeTrain", "ModeEval", "Forward", "SetAlpha", "Summarize", "Export"]
-    G: Dict[str, Any] = {}
-    G["mps"] = _graph(R, f"SelectionMC_mps_{optimpl}_{sfx}", all_mps)
-    # C10 conditions its claims on the sampler in force, so it must hold under both option semantics
-    R.design("SelectionMC", f"SelectionMC_mps_{other}_{sfx}", workers=8)
-    G["sn"] = _graph(R, f"SelectionMC_sn_{sfx}", all_sn)
-    R.design("SelectionMC", f"SelectionMC_sn_ref_{sfx}", workers=8)
-    # sanity / non-vacuity: the combiner AS IMPLEMENTED, without admitting the named deviations, must violate
-    # exactly the two clauses the findings are about
-    bad = R.design("SelectionMC", "SelectionMC_sn_nokf", expect_ok=False, cont=True, workers=8)
-    got = {v["name"] for v in bad.violations}
-    if not {"OneHotAtArgmax", "ReportIsArgmax"} <= got:
-        raise MachineryError(f"sanity config SelectionMC_sn_nokf violated {sorted(got)}, expected OneHotAtArgmax and ReportIsArgmax")
-    # per-channel enumeration: every ranking matrix x every constructor option x mode, one forward pass
-    G["pc"] = _graph(R, f"SelectionMC_pc_{optimpl}_{sfx}", ["ModeTrain", "ModeEval", "Forward"])
-    # whole models
-    G["mm"] = _graph(R, f"SelectionMC_mpsmodel_{optimpl}_{sfx}", all_mps)
-    G["sm"] = _graph(R, f"SelectionMC_snmodel_{sfx}", all_sn)
-    if thorough:        # three temperature classes (N = 3) in addition to four candidates (one class)
-        G["mps3"] = _graph(R, f"SelectionMC_mps_{optimpl}_thorough3", all_mps)
-        G["sn3"] = _graph(R, "SelectionMC_sn_thorough3", all_sn)
+    all_mps = ["UpdTemp", "UpdHard", "UpdGumbel", "UpdDisable", "ModeTrain", "ModeEval", "Forward", "SetAlpha", "Load",
+               "Summarize", "Export"]
+    all_sn = ["UpdTemp", "UpdHard", "ModeTrain", "ModeEval", "Forward", "SetAlpha", "Load", "Summarize", "Export"]
+    mod_mps = all_mps if thorough else [a for a in all_mps if a not in ("UpdTemp", "UpdDisable")]
+    SANITY = (("SelectionMC_sn_nokf", "OneHotAtArgmax"), ("SelectionMC_sn_sumsamples", "ReportIsArgmax"),
+              ("SelectionMC_mps_skipflag", "OneHotAtArgmax"), ("SelectionMC_mps_skipver", "OneHotAtArgmax"),
+              ("SelectionMC_sn_skipflag", "OneHotAtArgmax"))
+    graphs = [f"SelectionMC_mps_{optimpl}_{sfx}", f"SelectionMC_sn_{sfx}", f"SelectionMC_pc_{optimpl}_{sfx}",
+              f"SelectionMC_pcw_{optimpl}_{sfx}", f"SelectionMC_mpsmodel_{optimpl}_{sfx}", f"SelectionMC_snmodel_{sfx}"] + \
+             ([f"SelectionMC_mps_{optimpl}_thorough3", "SelectionMC_sn_thorough3"] if thorough else [])
+    plain = [f"SelectionMC_mps_{other}_{sfx}", f"SelectionMC_sn_ref_{sfx}"] + [c for c, _ in SANITY]
+    global PRE
+    with _Prefetch([(c, {"graph": True, "workers": 2}) for c in graphs] + [(c, {"workers": 2}) for c in plain]) as PRE:
+        G: Dict[str, Any] = {}
+        G["mps"] = _graph(R, f"SelectionMC_mps_{optimpl}_{sfx}", all_mps)
+        # C10 conditions its claims on the sampler in force, so it must hold under both option semantics
+        R.design("SelectionMC", f"SelectionMC_mps_{other}_{sfx}", workers=2)
+        G["sn"] = _graph(R, f"SelectionMC_sn_{sfx}", all_sn)
+        R.design("SelectionMC", f"SelectionMC_sn_ref_{sfx}", workers=2)
+        # sanity / non-vacuity: defective variants must violate the clause they are about.
+        #  sn_nokf       : the combiner AS IMPLEMENTED without admitting the named deviation (eval mode is not hard)
+        #  sn_sumsamples : summary() re-samples (the pinned code, repaired in the tree)
+        #  *_skipflag / mps_skipver : an inference-time short cut (eval mode + torch.no_grad()) that keeps a cached
+        #                  theta_alpha across writes to alpha
+        for cfg, clause in SANITY:
+            bad = R.design("SelectionMC", cfg, expect_ok=False, workers=2)
+            got = {v["name"] for v in bad.violations}
+            if clause not in got:
+                raise MachineryError(f"sanity config {cfg} violated {sorted(got)}, expected {clause}")
+        # per-channel enumeration: every ranking matrix x every constructor option x mode, one forward pass per grad mode
+        G["pc"] = _graph(R, f"SelectionMC_pc_{optimpl}_{sfx}", ["ModeTrain", "ModeEval", "Forward"])
+        # per-channel writes: every way of writing alpha between forward passes of either grad mode, every constructor option
+        G["pcw"] = _graph(R, f"SelectionMC_pcw_{optimpl}_{sfx}", ["ModeTrain", "ModeEval", "Forward", "SetAlpha"] +
+                          (["Load"] if thorough else []))
+        # whole models
+        G["mm"] = _graph(R, f"SelectionMC_mpsmodel_{optimpl}_{sfx}", mod_mps)
+        G["sm"] = _graph(R, f"SelectionMC_snmodel_{sfx}", all_sn)
+        if thorough:        # three temperature classes in addition
+            G["mps3"] = _graph(R, f"SelectionMC_mps_{optimpl}_thorough3", all_mps)
+            G["sn3"] = _graph(R, "SelectionMC_sn_thorough3", all_sn)
+    PRE = None
 
     timing["design"] = round(time.time() - T0, 1)
     # ------------------------------------------------------------------ 2. spec -> code: every edge on the real objects
@@ -908,6 +1111,8 @@ def run(tier: str, seed: int, replay: Optional[str] = None) -> int:
                                              "_shape": [(3, pc_ch)]},
                                  not_bare, seg_len, rng, init_alpha_any=True,
                                  what=f"MPSPerChannelQtz / pc_{optimpl}_{sfx}: every edge")
+    pw_ch = len(next(iter(G["pcw"][0].values()))["st"]["rank"])
+    scen += bare_channel(G["pcw"], f"MPSPerChannelQtz ({pw_ch} channels) / pcw_{optimpl}_{sfx}: every edge", c=pw_ch)
     if thorough:        # quick: the option interleavings on per-channel objects come from the random driver only
         scen += bare_channel(G["mps3"], f"MPSPerChannelQtz (4 channels) / mps_{optimpl}_thorough3: every edge")
         scen += bare_layer(G["mps3"], f"MPSPerLayerQtz / mps_{optimpl}_thorough3: every edge")
@@ -929,7 +1134,7 @@ def run(tier: str, seed: int, replay: Optional[str] = None) -> int:
                                  every if thorough else no_opts, seg_len, rng,
                                  what=f"MPS model, per-channel weights / mpsmodel_{optimpl}_{sfx}: " +
                                       ("every edge" if thorough else "every edge of the subgraph without option updates "
-                                                                     "(all constructor options x mode x forward / coefficients / summary / export)"))
+                                                                     "(all constructor options x mode x forward / writes / load / summary / export)"))
     ns = n_of(G["sm"])
     scen += scenarios_from_graph(*G["sm"], "model_sn", lambda st: {"blocks": [ns, ns], "_shape": [(ns, 1), (ns, 1)]},
                                  every, seg_len, rng, what=f"SuperNet model, two blocks / snmodel_{sfx}: every edge")
